@@ -13,6 +13,7 @@ wrap-adjacent ISS placements for both sides, random segment orders, backlog
 pressure); harness/sockd injects segments for which no socket exists.
 """
 import copy
+import json  # noqa
 import os
 import threading
 from concurrent.futures import ThreadPoolExecutor
@@ -24,7 +25,7 @@ MANIFEST = dict(
     technique='TLA+ closed model TcpHs (handshake I-spec vs scripted peer, TLC exhaustive, P-monitors AcceptOK/ConnectOK/BadAck/ResetNeverAnswered) + paths of its state graph and seeded samples replayed on the real stack by a reactive raw-peer driver; every trace validated by TLC against the P-spec TraceHs (handshake) / TraceSock (no socket => exactly one reset)',
     text='TLC explores every sequence of up to 4 peer segments (flags S, SA, A, R, RA, FA, none; sequence numbers irs, irs+1, irs+2, far; ack numbers iss-1, iss, iss+1, iss+2, far; arithmetic modulo 16 with the initial sequence numbers placed at 0, 1, 7, 8, 15) against the active opener, the listener and the listener in SYN-cookie mode and checks that a connection reaches Accept / Connect completes only after a SYN and a non-RST ACK of exactly iss+1, that any other acknowledgement delivered to a SYN-SENT / SYN-RCVD connection is answered by one RST carrying that number, and that a RST is never answered. Transitions of that graph and seeded scenarios (wrong ACK numbers iss+1 +- 1, +- 2^k, random; SYN option lists with MSS, window scale, timestamps, SACK-permitted, NOP/EOL padding, unknown kinds, truncated and mis-sized options, none; peer and stack ISS at 0, 2^31-1, 2^31, 2^32-1 (hook H4 for the active side, cookie linearity for the passive side); IPv4 and IPv6; normal, cookie and backlog-pressure mode; random segment orders) run on a real stack; after every peer segment the driver waits until every goroutine of the stack is parked, so "nothing is emitted" and "Accept would block" are statements about a quiescent state. TLC decides from the recorded injections, emitted frames (harness decoder) and Accept / Connect results whether the P-spec admits the trace; after the handshake a write shows that segment sizes and the amount in flight respect the MSS and window (scale) the peer put on its SYN. Segments for which no socket exists (64 flag combinations, with/without ACK, payload 0..1000, wrap-adjacent numbers, IPv4/IPv6) must be answered by exactly one RST with seq = their ack number (0 without ACK) and ack = seq + length, RSTs by nothing.',
     design='5 C03',
-    note='Deviations from DESIGN C03: own closed model TcpHs instead of a TcpImpl section; quiescence detected from goroutine states instead of hook H6 / 50 ms of silence; the complete graph is replayed only for <= 2 peer segments (thorough), longer behaviours by a seeded edge sample. AcceptOK does not constrain the sequence number of the final ACK (the statement does not): observed, out of scope - synRcvdState completes on an ACK of iss+1 with ANY sequence number (no RFC 793 acceptability test), also on a duplicate SYN-ACK. A bare ACK to a listener without SYN may be dropped or reset. Known finding F21 (cookie validation accepts ack numbers iss+1+d, |d| <= 3, through the additive MSS index), F22 (it validates only ack - seq: any common shift passes) are probed with the strict spec on every run and tolerated elsewhere only in exactly that shape; F23 (an established connection answered an acceptable RST with a RST; fixed in /repo) is probed too and tolerated nowhere. Seen, belongs to C04: cookie mode rounds a peer MSS below 536 up to 536; a passive open ignores the window of the handshake-completing ACK. The 2^-22 cookie guessing probability is not explored. Timestamp negotiation (RFC 7323 drop of option-less segments) is honoured by the scripts, not modelled.')
+    note='Deviations from DESIGN C03: own closed model TcpHs instead of a TcpImpl section; quiescence detected from goroutine states instead of hook H6 / 50 ms of silence; the replayed graph is the placement-free quotient (VIEW ViewReplay) of TcpHs: quick replays a seeded sample of 700 paths of the <= 2-segment graph, thorough every transition of the <= 3-segment graph (52 k transitions); the exhaustive TLC run covers 4 segments. A mutant accepting cookies from a stale timestamp slot is not detectable (needs > 3 minutes of waiting and is not forbidden by the statement). AcceptOK does not constrain the sequence number of the final ACK (the statement does not): observed, out of scope - synRcvdState completes on an ACK of iss+1 with ANY sequence number (no RFC 793 acceptability test), also on a duplicate SYN-ACK. A bare ACK to a listener without SYN may be dropped or reset. Known finding F21 (cookie validation accepts ack numbers iss+1+d, |d| <= 3, through the additive MSS index), F22 (it validates only ack - seq: any common shift passes) are probed with the strict spec on every run and tolerated elsewhere only in exactly that shape; F23 (an established connection answered an acceptable RST with a RST; fixed in /repo) is probed too and tolerated nowhere. Seen, belongs to C04: cookie mode rounds a peer MSS below 536 up to 536; a passive open ignores the window of the handshake-completing ACK. The 2^-22 cookie guessing probability is not explored. Timestamp negotiation (RFC 7323 drop of option-less segments) is honoured by the scripts, not modelled.')
 
 SPEC = ['hs']
 WRAP = [0x00000000, 0x00000001, 0x7fffffff, 0x80000000, 0xffffffff, 0xfffffffe, 0x7ffffffe, 0x0000ffff, 0xffff0000, 0x80000001]
@@ -458,25 +459,65 @@ def nosock_scenarios(ctx, n):
 
 
 # ------------------------------------------------------------------ running the driver
+CRASHES = []
+
+
+def read_events(path):
+    out = []
+    if not os.path.exists(path):
+        return out
+    with open(path) as f:
+        for ln in f:
+            ln = ln.strip()
+            if not ln:
+                continue
+            try:
+                out.append(json.loads(ln))
+            except ValueError:
+                break           # a line cut by a crash
+    return out
+
+
 def run_hsd(ctx, drv, scs, name, chunk=120):
-    """Run scenarios through hsd (several processes in parallel); returns one event segment per scenario."""
+    """Run scenarios through hsd (several processes in parallel); returns one event segment per scenario.
+    The driver flushes its events at every settle: if the stack under test crashes the process, what was
+    observed up to then is kept (the P-spec still judges it), the crash is recorded and the remaining
+    scenarios run in a fresh process."""
     if not scs:
         return []
     chunks = [scs[i:i + chunk] for i in range(0, len(scs), chunk)]
 
     def one(k):
-        sp = os.path.join(ctx.work, '%s-%d.json' % (name, k))
-        tp = os.path.join(ctx.work, '%s-%d.ndjson' % (name, k))
-        vlib.write_json(sp, [strip(s) for s in chunks[k]])
-        env = ctx.go_env()
-        env['GOMAXPROCS'] = '1'
-        p = ctx.run([drv, 'run', sp, tp], timeout=3000, env=env)
-        segs = vlib.split_segments(vlib.read_ndjson(tp))
-        if len(segs) != len(chunks[k]):
-            raise vlib.Inconclusive('hsd produced %d segments for %d scenarios' % (len(segs), len(chunks[k])))
-        os.remove(tp)
-        os.remove(sp)
-        return segs
+        todo = list(chunks[k])
+        done = []
+        rnd = 0
+        while todo:
+            rnd += 1
+            sp = os.path.join(ctx.work, '%s-%d-%d.json' % (name, k, rnd))
+            tp = os.path.join(ctx.work, '%s-%d-%d.ndjson' % (name, k, rnd))
+            vlib.write_json(sp, [strip(s) for s in todo])
+            env = ctx.go_env()
+            env['GOMAXPROCS'] = '1'
+            p = ctx.run([drv, 'run', sp, tp], timeout=3000, env=env, ok_rc=None)
+            segs = vlib.split_segments(read_events(tp))
+            os.remove(sp)
+            if os.path.exists(tp):
+                os.remove(tp)
+            if p.returncode == 0:
+                if len(segs) != len(todo):
+                    raise vlib.Inconclusive('hsd produced %d segments for %d scenarios' % (len(segs), len(todo)))
+                done += segs
+                break
+            if p.returncode == 3 or rnd > 20:
+                raise vlib.Inconclusive('hsd failed rc=%d: %s' % (p.returncode, p.stderr.decode('utf-8', 'replace')[-1500:]))
+            # crash (Go panic / fatal error in the stack): the last segment written belongs to the scenario that was running
+            n = max(len(segs), 1)
+            if not segs:
+                segs = [[dict(ev='reset', role=todo[0]['role'], cookie=todo[0].get('cookie', 0), tag=todo[0]['tag'])]]
+            CRASHES.append(dict(tag=todo[n - 1]['tag'], stderr=p.stderr.decode('utf-8', 'replace')[:600]))
+            done += segs[:n]
+            todo = todo[n:]
+        return done
     with ThreadPoolExecutor(max_workers=max(1, min(ctx.workers, 8))) as ex:
         res = list(ex.map(one, range(len(chunks))))
     segs = [s for r in res for s in r]
@@ -591,7 +632,7 @@ def run(ctx):
     missing = [a for a in ACTIONS if a not in seen_actions]
     if missing or len(inits) != 3:
         raise vlib.Inconclusive('vacuity: TcpHs actions never taken in the replay graph: %s (initial states %d)' % (missing, len(inits)))
-    paths, ncov, nedges = vlib.graph_paths(nodes, edges, inits, max_paths=ctx.pick(400, 6000), rng=rng)
+    paths, ncov, nedges = vlib.graph_paths(nodes, edges, inits, max_paths=ctx.pick(700, None), rng=rng)
     states = {}
 
     def st_of(nid):
@@ -782,6 +823,10 @@ def run(ctx):
         tags[t] = tags.get(t, 0) + 1
     ctx.extra.update(scenarios=tags, peer_segments=ninj, resets_observed=nrst, connections_observed=nconn,
                      nosocket_segments=nsinj, nosocket_resets=nsrst, e1_states=r1.distinct, graph_actions=sorted(seen_actions))
+    if CRASHES:
+        ctx.extra['driver_crashes'] = CRASHES[:5]
+        if ctx.violations == 0:
+            raise vlib.Inconclusive('the stack under test crashed the driver (%d times, first in scenario %s): %s' % (len(CRASHES), CRASHES[0]['tag'], CRASHES[0]['stderr'][:300]))
     if unbuildable and ctx.violations == 0:
         raise vlib.Inconclusive('binding self-test could not be built (%s): the base scenario did not run as expected' % '; '.join(unbuildable))
     ctx.sample(dict(kind='graph-path', scenario=strip(gscs[0])))
